@@ -1,0 +1,25 @@
+//go:build verif
+
+// Contracts for package monitor (comment-only; compiled to nothing).
+// written(v) is a ghost flag: "this call has written the package-level variable v" (a write of the same value counts).
+
+package monitor
+
+//@ func Set
+//@   modifies global monitor.m
+//@   ensures monitor != nil ==> m == monitor
+//@   ensures monitor == nil ==> m == old(m) && !written(m)
+//@   nopanic
+
+//@ func Reset
+//@   modifies global monitor.m, global monitor.p, global monitor.a
+//@   ensures m == nil
+//@   ensures old(m) == nil ==> p == old(p) && a == old(a) && !written(m) && !written(p) && !written(a)
+//@   nopanic
+
+//@ func PrefixFor
+//@   modifies global monitor.p, global monitor.a
+//@   ensures old(m) == nil ==> p == old(p) && a == old(a) && !written(p) && !written(a)
+
+//@ func Log
+//@   modifies nothing
